@@ -64,6 +64,13 @@ def _collect(mi: ModuleInfo, body) -> None:
         if isinstance(node, ast.ImportFrom) and node.module and node.level == 0:
             for a in node.names:
                 mi.imports[a.asname or a.name] = f"{node.module}.{a.name}"
+        elif isinstance(node, ast.ImportFrom) and node.level > 0 and not os.environ.get("PYVC_NO_RELIMPORT"):
+            # relative import (`from .discipline import Discipline` in a package __init__): resolved against the module's package
+            base = mi.name.split(".")
+            base = base[: len(base) - node.level + (1 if mi.path.name == "__init__.py" else 0)]
+            mod = ".".join(base + ([node.module] if node.module else []))
+            for a in node.names:
+                mi.imports.setdefault(a.asname or a.name, f"{mod}.{a.name}")
         elif isinstance(node, ast.Import):
             for a in node.names:
                 mi.imports[a.asname or a.name.split(".")[0]] = a.name if a.asname else a.name.split(".")[0]
